@@ -31,6 +31,9 @@ pub enum TOp {
     Compact(Option<u8>, Option<u8>),
     /// n plain gets of one key (each judged separately)
     GetMany(u8, u16),
+    /// a fresh iterator, `seek(key)`: the value if the iterator lands on exactly that key (judged
+    /// like a get)
+    IterSeek(u8),
 }
 
 #[derive(Clone, Debug, PartialEq, Eq, Hash)]
@@ -161,6 +164,7 @@ pub fn top_str(o: &TOp, keys: &[Vec<u8>]) -> String {
             b.as_ref().map(k).unwrap_or_default()
         ),
         TOp::GetMany(i, n) => format!("get*{} {}", n, k(i)),
+        TOp::IterSeek(i) => format!("iterseek {}", k(i)),
     }
 }
 
@@ -226,6 +230,31 @@ fn exec_op(db: &DB, keys: &[Vec<u8>], thread: usize, op: &TOp, log: &Mutex<Vec<E
                     Err(e) => Res::Err(e),
                 },
             );
+        }
+        TOp::IterSeek(k) => {
+            let i = tick();
+            let it = db.new_iterator(ReadOptions::default());
+            let t = tick();
+            let res = match it {
+                Ok(it) => {
+                    let mut it: DbIter = Box::new(it);
+                    match it.seek(&keys[*k as usize]) {
+                        Ok(()) => {
+                            if it.is_valid() && it.current().map(|(kk, _)| *kk == keys[*k as usize]).unwrap_or(false) {
+                                Res::Val(it.current().map(|(_, v)| v.clone()))
+                            } else {
+                                match it.take_error() {
+                                    Some(e) => Res::Err(e.to_string()),
+                                    None => Res::Val(None),
+                                }
+                            }
+                        }
+                        Err(e) => Res::Err(e.to_string()),
+                    }
+                }
+                Err(e) => Res::Err(e.to_string()),
+            };
+            push(i, t, op.clone(), res);
         }
         TOp::GetMany(k, n) => {
             for _ in 0..*n {
@@ -710,7 +739,7 @@ fn apply_model(m: &mut M, op: &TOp, keys_n: usize) -> Res {
             }
             Res::Ok
         }
-        TOp::Get(k) => Res::Val(m.get(k).cloned()),
+        TOp::Get(k) | TOp::IterSeek(k) => Res::Val(m.get(k).cloned()),
         TOp::SnapRead(ks) => Res::Multi(ks.iter().map(|k| m.get(k).cloned()).collect()),
         TOp::IterScan => {
             let _ = keys_n;
@@ -862,7 +891,7 @@ pub fn judge(prog: &Prog, out: &Outcome, events: &[Event], stale_uses: u64, atom
                 "C02.concurrent_crash"
             } else if m.contains("removed file") || m.contains("Could not find the file") {
                 "C11.live_deleted"
-            } else if matches!(e.op, TOp::Get(_) | TOp::SnapRead(_) | TOp::IterScan) {
+            } else if matches!(e.op, TOp::Get(_) | TOp::IterSeek(_) | TOp::SnapRead(_) | TOp::IterScan) {
                 "C05.read_err"
             } else {
                 "C05.write_err"
